@@ -152,6 +152,19 @@ func verifSnapshot(c *DiskCache, dir string, digests []Digest) map[string]any {
 		}
 		return nil
 	})
+	// files that are neither under blobs/ nor under manifests/ (a manifest written through a ".." part lands here)
+	stray := []string{}
+	filepath.WalkDir(dir, func(p string, d fs.DirEntry, err error) error {
+		if err != nil || d.IsDir() {
+			return nil
+		}
+		rel, _ := filepath.Rel(dir, p)
+		rel = filepath.ToSlash(rel)
+		if !strings.HasPrefix(rel, "blobs/") && !strings.HasPrefix(rel, "manifests/") {
+			stray = append(stray, rel)
+		}
+		return nil
+	})
 	gets := map[string]int64{}
 	for _, d := range digests {
 		e, err := c.Get(d)
@@ -169,7 +182,7 @@ func verifSnapshot(c *DiskCache, dir string, digests []Digest) map[string]any {
 		}
 		names = append(names, n)
 	}
-	return map[string]any{"blobs": blobs, "links": links, "gets": gets, "names": names}
+	return map[string]any{"blobs": blobs, "links": links, "gets": gets, "names": names, "stray": stray}
 }
 
 func verifDigests(c map[string]any) []Digest {
